@@ -91,5 +91,5 @@ func (r *CountGenerator) getRand(n uint32, max int) int {
 	if max == 0 {
 		return 0
 	}
-	return int(n%uint32(max) + 1)
+	return int(uint64(n)%uint64(max)) + 1
 }
